@@ -571,12 +571,19 @@ func (s *Snapshot) Decode(buf []byte, r io.Reader) error {
 // When snapshots are shared by multiple threads, each thread should Open the
 // snapshot. This API internally tracks the reference count for the snapshot.
 func (s *Snapshot) Open() bool {
-	if atomic.LoadInt32(&s.refCount) == 0 {
-		return false
+	for {
+		refCount := atomic.LoadInt32(&s.refCount)
+		if refCount == 0 {
+			return false
+		}
+		verifYield(VerifPtOpenTested)
+		// Take the reference only if the count is still the non-zero value
+		// that was tested; a plain increment could resurrect a snapshot whose
+		// last reference was dropped in between.
+		if atomic.CompareAndSwapInt32(&s.refCount, refCount, refCount+1) {
+			return true
+		}
 	}
-	verifYield(VerifPtOpenTested)
-	atomic.AddInt32(&s.refCount, 1)
-	return true
 }
 
 // Close is the snapshot descructor
